@@ -76,6 +76,7 @@ def golden_env(tier):
 
 
 PROPS = {
+    "C07": lambda *a: __import__("c07").check(*a),
     "C20": sched_check("model_checking", ["listener scenarios run in fine mode: flag and listener-map operations of baselibrary are decision points"]),
     "C06": sched_check("model_checking", []),
     "C12": seq_check("c12", "model_checking", ["states are merged when the in-package dump of the complete writer state (err, state pointer nil-ness, flags, stack, tables, buffer length+hash) and the handle slots are equal: equal dumps have equal futures because the dump covers every field the writer reads", "first ops are distributed over shards with independent seen-sets (duplicates cost time only)"]),
